@@ -10,6 +10,8 @@ pub enum B {
     List(Vec<B>),
     /// Key/value pairs in *wire order* (not necessarily sorted).
     Dict(Vec<(Vec<u8>, B)>),
+    /// Verbatim bytes (only produced by mutators; never by the parser).
+    Raw(Vec<u8>),
 }
 
 impl B {
@@ -86,6 +88,7 @@ impl B {
                 }
                 out.push(b'e');
             }
+            B::Raw(r) => out.extend_from_slice(r),
             B::Dict(kv) => {
                 out.push(b'd');
                 for (k, v) in kv {
